@@ -315,7 +315,7 @@ def check_c10(an):
                                               f'what it is entitled to, first '
                                               f'{fmt_tok(toks[len(exp)])}',
                        key=f'stream-extra:{toks[len(exp)][0]}')
-            elif finished and len(toks) < len(exp):
+            elif finished and len(toks) < len(exp) and not _seat_left(run, s):
                 an.add('C10', 'stream-short', f'{s}: session completed but {len(exp) - len(toks)} '
                                               f'message(s) never sent, first missing '
                                               f'{fmt_tok(exp[len(toks)])}',
@@ -336,6 +336,12 @@ def check_c10(an):
                     pass
     # relays are sent after their original
     # (implied by stream equality + physical causality; nothing further to check)
+
+
+def _seat_left(run, seat):
+    """the scenario made this seat's client close its connection: nothing more can be sent to it"""
+    ab = run.scn.get('abort') or {}
+    return ab.get('kind') in ('leave', 'vanish') and ab.get('seat') == seat
 
 
 def fmt_tok(t):
